@@ -198,11 +198,11 @@ Section KMU.
             { apply in_bin_intro; [intros _; lra| |lra].
               intros Hne. destruct C4 as [->|C4]; [|lra]. destruct Hbmy as [?|?]; [lia|assumption]. }
             (* accumulate *)
-            rewrite model_Nk, model_Nmu, model_kz.
+            rewrite model_Nk, model_Nmu.
             destruct (add3_spec cnt T Nk Nmu tid bk' bmu' (ku_mult P k n) Lc Htid) as [cnt1 [Ec1 Ac1]];
               [unfold Nk; lia|unfold Nmu; lia|].
             rewrite Ec1. cbn [bind].
-            rewrite (get3_spec W n n kz i j k HW Hi Hj) by (unfold kz in *; lia). cbn [bind].
+            change (mesh_kz n) with kz. rewrite (get3_spec W n n kz i j k HW Hi Hj) by (unfold kz in *; lia). cbn [bind].
             change (nth (Z.to_nat ((i * n + j) * kz + k)) W 0) with (at_half n W i j k).
             destruct (add3_spec ws T Nk Nmu tid bk' bmu' (ku_wmult P k n (at_half n W i j k)) Lw Htid) as [ws1 [Ew1 Aw1]];
               [unfold Nk; lia|unfold Nmu; lia|].
